@@ -492,6 +492,13 @@ pub fn build(skel: &[Sk], atoms: &[usize], conds: &[usize], is_function: bool, i
         },
     ];
     body.extend(instantiate(skel, &mut filler));
+    // Every statement kind that reads: a log whose expressions follow a string argument, then
+    // the return / assertion.
+    {
+        let mut l = Atom::new("log(\"x = \", x, \" y, a = \", y + a[0], n)", vec![Ev::Log("log".into())]);
+        l.span_includes_semi = true;
+        body.push(Node::Atom(l));
+    }
     if is_function {
         body.push(Node::Atom(Atom::ret("x + y + a[0]").with_idents(vec![("x", Role::Read), ("y", Role::Read), ("a", Role::Read)])));
     } else {
